@@ -15,9 +15,11 @@ where
     E1: Unmarshal<'buf, 'fds> + Sized,
 {
     fn unmarshal(ctx: &mut UnmarshalContext<'fds, 'buf>) -> unmarshal::UnmarshalResult<Self> {
-        ctx.align_to(8)?;
-        let val1 = E1::unmarshal(ctx)?;
-        Ok((val1,))
+        ctx.in_container(1, |ctx| {
+            ctx.align_to(8)?;
+            let val1 = E1::unmarshal(ctx)?;
+            Ok((val1,))
+        })
     }
 }
 
@@ -27,13 +29,15 @@ where
     E2: Unmarshal<'buf, 'fds> + Sized,
 {
     fn unmarshal(ctx: &mut UnmarshalContext<'fds, 'buf>) -> unmarshal::UnmarshalResult<Self> {
-        ctx.align_to(8)?;
-        let val1 = E1::unmarshal(ctx)?;
+        ctx.in_container(1, |ctx| {
+            ctx.align_to(8)?;
+            let val1 = E1::unmarshal(ctx)?;
 
-        ctx.align_to(E2::alignment())?;
-        let val2 = E2::unmarshal(ctx)?;
+            ctx.align_to(E2::alignment())?;
+            let val2 = E2::unmarshal(ctx)?;
 
-        Ok((val1, val2))
+            Ok((val1, val2))
+        })
     }
 }
 
@@ -44,16 +48,18 @@ where
     E3: Unmarshal<'buf, 'fds> + Sized,
 {
     fn unmarshal(ctx: &mut UnmarshalContext<'fds, 'buf>) -> unmarshal::UnmarshalResult<Self> {
-        ctx.align_to(8)?;
-        let val1 = E1::unmarshal(ctx)?;
+        ctx.in_container(1, |ctx| {
+            ctx.align_to(8)?;
+            let val1 = E1::unmarshal(ctx)?;
 
-        ctx.align_to(E2::alignment())?;
-        let val2 = E2::unmarshal(ctx)?;
+            ctx.align_to(E2::alignment())?;
+            let val2 = E2::unmarshal(ctx)?;
 
-        ctx.align_to(E3::alignment())?;
-        let val3 = E3::unmarshal(ctx)?;
+            ctx.align_to(E3::alignment())?;
+            let val3 = E3::unmarshal(ctx)?;
 
-        Ok((val1, val2, val3))
+            Ok((val1, val2, val3))
+        })
     }
 }
 
@@ -65,19 +71,21 @@ where
     E4: Unmarshal<'buf, 'fds> + Sized,
 {
     fn unmarshal(ctx: &mut UnmarshalContext<'fds, 'buf>) -> unmarshal::UnmarshalResult<Self> {
-        ctx.align_to(8)?;
-        let val1 = E1::unmarshal(ctx)?;
+        ctx.in_container(1, |ctx| {
+            ctx.align_to(8)?;
+            let val1 = E1::unmarshal(ctx)?;
 
-        ctx.align_to(E2::alignment())?;
-        let val2 = E2::unmarshal(ctx)?;
+            ctx.align_to(E2::alignment())?;
+            let val2 = E2::unmarshal(ctx)?;
 
-        ctx.align_to(E3::alignment())?;
-        let val3 = E3::unmarshal(ctx)?;
+            ctx.align_to(E3::alignment())?;
+            let val3 = E3::unmarshal(ctx)?;
 
-        ctx.align_to(E4::alignment())?;
-        let val4 = E4::unmarshal(ctx)?;
+            ctx.align_to(E4::alignment())?;
+            let val4 = E4::unmarshal(ctx)?;
 
-        Ok((val1, val2, val3, val4))
+            Ok((val1, val2, val3, val4))
+        })
     }
 }
 
@@ -121,10 +129,12 @@ impl<E: Signature + Clone> Signature for Cow<'_, [E]> {
 /// for byte arrays we can give an efficient method of decoding. This will bind the returned slice to the lifetime of the buffer.
 impl<'buf, 'fds> Unmarshal<'buf, 'fds> for &'buf [u8] {
     fn unmarshal(ctx: &mut UnmarshalContext<'fds, 'buf>) -> unmarshal::UnmarshalResult<Self> {
-        ctx.align_to(Self::alignment())?;
-        let elements = ctx.read_u8_slice()?;
+        ctx.in_container(1, |ctx| {
+            ctx.align_to(Self::alignment())?;
+            let elements = ctx.read_u8_slice()?;
 
-        Ok(elements)
+            Ok(elements)
+        })
     }
 }
 
@@ -136,15 +146,17 @@ fn unmarshal_slice_bytes<'buf, 'fds, E>(
 where
     E: Unmarshal<'buf, 'fds>,
 {
-    let bytes_in_array = ctx.read_array_len()?;
-    let alignment = E::alignment();
-    ctx.align_to(alignment)?;
+    ctx.in_container(1, |ctx| {
+        let bytes_in_array = ctx.read_array_len()?;
+        let alignment = E::alignment();
+        ctx.align_to(alignment)?;
 
-    // Check that we will have a range of complete elements
-    if bytes_in_array % alignment != 0 {
-        return Err(UnmarshalError::NotAllBytesUsed);
-    }
-    ctx.read_raw(bytes_in_array)
+        // Check that we will have a range of complete elements
+        if bytes_in_array % alignment != 0 {
+            return Err(UnmarshalError::NotAllBytesUsed);
+        }
+        ctx.read_raw(bytes_in_array)
+    })
 }
 
 /// Copies the elements out of the bytes returned by `unmarshal_slice_bytes`
@@ -191,20 +203,22 @@ impl<'buf, 'fds, E: Unmarshal<'buf, 'fds>> Unmarshal<'buf, 'fds> for Vec<E> {
                 return Ok(copy_slice_bytes::<E>(src));
             }
         }
-        ctx.align_to(4)?;
-        let bytes_in_array = ctx.read_array_len()?;
+        ctx.in_container(1, |ctx| {
+            ctx.align_to(4)?;
+            let bytes_in_array = ctx.read_array_len()?;
 
-        ctx.align_to(E::alignment())?;
-
-        let mut elements = Vec::new();
-        let mut ctx = ctx.sub_context(bytes_in_array)?;
-        while !ctx.remainder().is_empty() {
             ctx.align_to(E::alignment())?;
-            let element = E::unmarshal(&mut ctx)?;
-            elements.push(element);
-        }
 
-        Ok(elements)
+            let mut elements = Vec::new();
+            let mut ctx = ctx.sub_context(bytes_in_array)?;
+            while !ctx.remainder().is_empty() {
+                ctx.align_to(E::alignment())?;
+                let element = E::unmarshal(&mut ctx)?;
+                elements.push(element);
+            }
+
+            Ok(elements)
+        })
     }
 }
 
@@ -212,27 +226,30 @@ impl<'buf, 'fds, K: Unmarshal<'buf, 'fds> + std::hash::Hash + Eq, V: Unmarshal<'
     Unmarshal<'buf, 'fds> for std::collections::HashMap<K, V>
 {
     fn unmarshal(ctx: &mut UnmarshalContext<'fds, 'buf>) -> unmarshal::UnmarshalResult<Self> {
-        ctx.align_to(4)?;
-        let bytes_in_array = ctx.read_array_len()?;
+        // a dict counts twice, once for the array and once for the dict entries
+        ctx.in_container(2, |ctx| {
+            ctx.align_to(4)?;
+            let bytes_in_array = ctx.read_array_len()?;
 
-        // align even if no elements are present
-        ctx.align_to(8)?;
-
-        let mut map = std::collections::HashMap::new();
-        let mut ctx = ctx.sub_context(bytes_in_array)?;
-        while !ctx.remainder().is_empty() {
-            // Always align to 8
+            // align even if no elements are present
             ctx.align_to(8)?;
-            let key = K::unmarshal(&mut ctx)?;
 
-            //Align to value
-            ctx.align_to(V::alignment())?;
-            let val = V::unmarshal(&mut ctx)?;
+            let mut map = std::collections::HashMap::new();
+            let mut ctx = ctx.sub_context(bytes_in_array)?;
+            while !ctx.remainder().is_empty() {
+                // Always align to 8
+                ctx.align_to(8)?;
+                let key = K::unmarshal(&mut ctx)?;
 
-            map.insert(key, val);
-        }
+                //Align to value
+                ctx.align_to(V::alignment())?;
+                let val = V::unmarshal(&mut ctx)?;
 
-        Ok(map)
+                map.insert(key, val);
+            }
+
+            Ok(map)
+        })
     }
 }
 
